@@ -2,9 +2,106 @@
 
 use serde_json::{json, Value};
 
-use crate::agentsim::{Adv, Auth, History, Op, Profile, Summary};
+use std::collections::HashMap;
+use std::time::Duration;
+
+use serde::{Deserialize, Serialize};
+use stun_proto::agent::{StunAgent, StunAgentPollRet};
+use stun_types::message::{Message, MessageClass, MessageType, TransactionId};
+use stun_types::TransportType;
+
+use crate::agentsim::{self, Adv, Auth, History, Op, Profile, Summary};
 use crate::common::*;
+use crate::ensure;
 use crate::props::agentprops::*;
+
+/// many transactions outstanding together on one agent: each completes exactly once
+#[derive(Debug, Clone, Serialize, Deserialize)]
+pub struct ManyTx {
+    pub n: u32,
+    pub tcp: bool,
+    /// ids differ only in their high 32 bits when set (else in the low bits)
+    pub high_bits: bool,
+}
+
+fn many_tx(c: &ManyTx, st: &mut Stats) -> TestResult {
+    st.eval();
+    let transport = if c.tcp { TransportType::Tcp } else { TransportType::Udp };
+    let mut agent = StunAgent::builder(transport, agentsim::local_addr()).build();
+    let t0 = agentsim::process_origin();
+    let at = |ms: u64| t0 + Duration::from_millis(ms);
+    let id_of = |i: u32| -> u128 { if c.high_bits { ((i as u128) << 64) | 0x5eed } else { 0x7000_0000_0000u128 + i as u128 } };
+    for i in 0..c.n {
+        let b = Message::builder(MessageType::from_class_method(MessageClass::Request, 1), TransactionId::from(id_of(i)));
+        agent
+            .send(b, agentsim::peer((i % 3) as u8), at(0))
+            .map_err(|e| Fail::new("c05-send-refused", format!("sending request #{} of {} with a free id failed: {:?}", i, c.n, e)))?;
+        if !c.tcp {
+            match agent.mut_request_transaction(TransactionId::from(id_of(i))) {
+                Some(mut r) => r.configure_timeout(Duration::from_millis(100), 1, Duration::from_millis(200)),
+                None => return Err(Fail::new("c05-lost", format!("request #{} is not outstanding right after send", i))),
+            }
+        }
+    }
+    for i in 0..c.n {
+        ensure!(
+            agent.request_transaction(TransactionId::from(id_of(i))).is_some(),
+            "c05-lost",
+            "with {} transactions outstanding, #{} ({:#x}) is not found",
+            c.n,
+            i,
+            id_of(i)
+        );
+    }
+    let mut sends: HashMap<u128, u32> = HashMap::new();
+    let mut done: HashMap<u128, u32> = HashMap::new();
+    let instants: &[u64] = if c.tcp { &[1, 39_499, 39_500, 39_501] } else { &[1, 99, 100, 299, 300, 301] };
+    for &ms in instants {
+        for _ in 0..(2 * c.n as usize + 4) {
+            match guard(|| agent.poll(at(ms))).map_err(|p| Fail::new("c05-panic", p))? {
+                StunAgentPollRet::WaitUntil(_) => break,
+                StunAgentPollRet::SendData(t) => {
+                    let d = t.data();
+                    let mut b = [0u8; 16];
+                    if d.len() >= 20 {
+                        b[4..].copy_from_slice(&d[8..20]);
+                    }
+                    *sends.entry(u128::from_be_bytes(b)).or_insert(0) += 1;
+                }
+                StunAgentPollRet::TransactionTimedOut(t) | StunAgentPollRet::TransactionCancelled(t) => {
+                    *done.entry(t.into()).or_insert(0) += 1;
+                }
+            }
+        }
+    }
+    for i in 0..c.n {
+        let id = id_of(i);
+        let want_sends = if c.tcp { 0 } else { 1 };
+        ensure!(
+            sends.get(&id).copied().unwrap_or(0) == want_sends && done.get(&id).copied().unwrap_or(0) == 1,
+            "c05-exactly-once",
+            "of {} concurrent transactions, #{} ({:#x}) was retransmitted {} times (expected {}) and reported complete {} times (expected exactly once)",
+            c.n,
+            i,
+            id,
+            sends.get(&id).copied().unwrap_or(0),
+            want_sends,
+            done.get(&id).copied().unwrap_or(0)
+        );
+        ensure!(agent.request_transaction(TransactionId::from(id)).is_none(), "c05-still-outstanding", "#{} is still outstanding after its timeout was reported", i);
+    }
+    ensure!(
+        sends.len() <= c.n as usize && done.len() == c.n as usize,
+        "c05-exactly-once",
+        "events were reported for ids that were never sent ({} ids transmitted, {} ids completed, {} sent)",
+        sends.len(),
+        done.len(),
+        c.n
+    );
+    st.class("many transactions outstanding together");
+    st.nontrivial(digest(&(c.n, c.tcp, c.high_bits)));
+    Ok(())
+}
 
 fn nontrivial(s: &Summary) -> bool {
     s.max_outstanding >= 2 || s.late_response_after_completion > 0 || s.id_reuse > 0
@@ -85,7 +182,7 @@ pub fn run(ctx: &Ctx) -> EvidenceMeta {
         .iter()
         .flat_map(|s| {
             let ops: Vec<Op> = s.iter().map(|i| alpha[*i].clone()).collect();
-            [History { tcp: false, ops: ops.clone() }, History { tcp: true, ops }]
+            [History { tcp: false, ops: ops.clone(), remote: 0 }, History { tcp: true, ops, remote: 0 }]
         })
         .collect();
     let n = items.len();
@@ -100,6 +197,14 @@ pub fn run(ctx: &Ctx) -> EvidenceMeta {
         ctx.merge_stats(st);
     }
     drive(ctx, &PROP, 25_000, 800_000);
+    // capacity: hundreds to thousands of concurrent transactions, ids differing in low or only in high bits
+    let mut many = vec![];
+    for n in if ctx.quick() { vec![17u32, 300, 1_100] } else { vec![17, 300, 1_100, 4_200] } {
+        for (tcp, high_bits) in [(false, false), (true, true), (false, true)] {
+            many.push(ManyTx { n, tcp, high_bits });
+        }
+    }
+    ctx.enumerate("many-transactions", &many, many_tx);
     ctx.proptest(
         "noeffect-relation",
         ctx.n(12_000, 400_000),
@@ -131,6 +236,10 @@ pub fn run(ctx: &Ctx) -> EvidenceMeta {
 }
 
 pub fn replay(check: &str, case: &Value, st: &mut Stats) -> Result<TestResult, String> {
+    if check == "many-transactions" {
+        let c: ManyTx = parse_case(case)?;
+        return Ok(many_tx(&c, st));
+    }
     if check.contains("noeffect-relation") {
         let h: History = parse_case(case)?;
         return Ok(no_effect_relation(Relation::NoEffect, &with_polls(h), st));
